@@ -7,6 +7,7 @@
 //! harness from the records wholly inside the prefix (own frame reader). The generated cut
 //! continues the chain: more calls on the recovered coordinator, up to three crashes.
 
+mod intent;
 use nv_engine::{main_for, pick, walframe, CaseCtx, Fail, PropDef, PropPart, Tier};
 use proptest::prelude::*;
 use serde::{Deserialize, Serialize};
@@ -141,11 +142,17 @@ struct Driver {
 }
 
 fn open_coord(path: &Path) -> Result<DistributedTxCoordinator, String> {
+    // wall clock must never decide anything in this check
+    open_coord_with(path, 3_600_000)
+}
+
+/// `timeout_ms`: 1 h everywhere except in the `intent` part, whose first coordinator lets its
+/// prepared transaction time out (1 ms, swept after a 25 ms sleep).
+fn open_coord_with(path: &Path, timeout_ms: u64) -> Result<DistributedTxCoordinator, String> {
     let wal = TxWal::open(path).map_err(|e| format!("TxWal::open: {e}"))?;
     let mut cfg = DistributedTxConfig::default();
-    // wall clock must never decide anything in this check
-    cfg.prepare_timeout_ms = 3_600_000;
-    cfg.commit_timeout_ms = 3_600_000;
+    cfg.prepare_timeout_ms = timeout_ms;
+    cfg.commit_timeout_ms = timeout_ms;
     Ok(DistributedTxCoordinator::new(ConsensusManager::default_config(), cfg).with_wal(wal))
 }
 
@@ -621,6 +628,7 @@ fn main() {
             PropPart::new("crash", 60_000, 4_000_000, case_strategy, run_case).boxed(),
             // each case waits 5.2 s: one per worker thread in the quick tier
             PropPart::new("slow", 16, 160, slow_strategy, slow_check).shrink_iters(2).boxed(),
+            PropPart::new("intent", 400, 8_000, intent::strategy, intent::check).shrink_iters(40).boxed(),
         ],
         children: vec![],
     });
